@@ -162,6 +162,8 @@ func init() {
 			{"admit0.2,close0.1,admit0.3", "0.1"},
 			{"admit0.2,close0.1,admit0.1", "0.1"},
 		}
+		jobs = append(jobs, vx.Job{Scenario: "panel.ops", Params: vx.P("ops", "close0.1,round", "pre", "0.1", "crosscheck", "1"), Bound: 2, Weight: 5})
+		jobs = append(jobs, vx.Job{Scenario: "panel.ops", Params: vx.P("ops", "admit0.2,close0.1", "pre", "0.1", "crosscheck", "1"), Bound: 2, Weight: 5})
 		for _, t := range three {
 			jobs = append(jobs, vx.Job{Scenario: "panel.ops", Params: vx.P("ops", t[0], "pre", t[1]), Bound: b(2, 4), Weight: 8})
 		}
